@@ -33,10 +33,11 @@ TableOk(r) == /\ r.attr_names = AttrOrder
               /\ r.default_colour = -1
               /\ r.samples = <<<<>>, <<0>>, <<255>>, <<1, 2, 3>>>>
 
+RECURSIVE FirstHit(_, _)
+FirstHit(r, j) == IF j > Len(DevSets) THEN 0 ELSE IF ExplainedBy(r, Corners \cup DevSets[j]) THEN j ELSE FirstHit(r, j + 1)
 Verdict(r) == IF r.kind = "table" THEN TableOk(r) \/ PrintT(<<"MISMATCH", l>>)
               ELSE IF ExplainedBy(r, Corners) THEN TRUE
               ELSE /\ PrintT(<<"MISMATCH", l>>)
-                   /\ LET hit == SelectSeq([i \in 1..Len(DevSets) |-> i], LAMBDA i : ExplainedBy(r, Corners \cup DevSets[i]))
-                      IN hit # <<>> => PrintT(<<"DEV", l, DevNames[hit[1]]>>)
+                   /\ LET hit == FirstHit(r, 1) IN hit # 0 => PrintT(<<"DEV", l, DevNames[hit]>>)
 JInv == l = 0 \/ Verdict(TraceLog[l])
 ================================================================================
